@@ -214,3 +214,8 @@ def run(chk):
     from sym import l1 as L1m
     L1m.settle(chk, [o for o in chk.obs if o.name.startswith("SqrtRatio[")], lambda: sqrt_battery(chk.seed), "Element.SqrtRatio")
     chk.samples = [o.j() for o in chk.obs if o.name.startswith("SqrtRatio[")][:6]
+
+
+def safety_net(chk):
+    from .c09 import absolute_battery
+    return sqrt_battery(chk.seed) or absolute_battery(chk.seed)
